@@ -141,7 +141,7 @@ func terminalReturn(b *ssa.BasicBlock) *ssa.Return {
 }
 
 func isErrorType(t types.Type) bool {
-	if n, ok := t.(*types.Named); ok && n.Obj().Pkg() == nil && n.Obj().Name() == "error" {
+	if n, ok := t.(*types.Named); ok && n.Obj().Pkg() == nil && objName(n.Obj()) == "error" {
 		return true
 	}
 	return false
